@@ -27,7 +27,7 @@ def run_one(job):
         db = docgen.make_db(job['ctx'])
     else:
         db = C.build_family(job['ctx'])[job['ctx']]
-    return parseharness.parse_top(job['s'], job['tolerant'], db)
+    return C.run_job(job, db)
 
 
 def main():
